@@ -167,34 +167,26 @@ theorem msc_extra_wellformed (C : Msc.Cfg) (ops : List Msc.Op) (g : Genesis) (id
   exact ⟨hgood.sealOk, this.len, this.plain, this.checkpoint, this.nonce, this.mix, this.uncle, this.diff, htd⟩
 
 /-- msc: what acceptance of a header establishes in every reachable state: its seal recovers to a signer that is
-authorized in the snapshot the code computes at its parent (`signer ∈ snap.signers`), who sealed none of the
-⌊|signers|/2⌋ nearest ancestors on the header's own parent chain (a trust root at block 0 excepted), the difficulty is 2
-exactly when the signer stands at index `number mod |signers|` of the ascending signer list, and a checkpoint carries
-exactly that list. (Proved part of the full statement `msc_signer_in_effect_set`.) -/
-theorem msc_signer_in_effect_set_partial (C : Msc.Cfg) (ops : List Msc.Op) (h : Hdr) (st' : St)
+authorized in the clique signer set of its parent chain — `Msc.replay`: the list of the nearest checkpoint (number
+divisible by `Epoch`, or the trust root), then every later ancestor's vote applied oldest first, a target changing status
+once more than half of the current signers vote for it. (The code computes that set by walking over
+`LastVoteParentOrEpoch` links; that the walk yields the replay over the plain parent chain is part of the proof.) The
+signer sealed none of the ⌊|signers|/2⌋ nearest ancestors (a trust root at block 0 excepted), the difficulty is 2 exactly
+when the signer stands at index `number mod |signers|` of the ascending signer list, and a checkpoint header carries
+exactly that list. -/
+theorem msc_signer_in_effect_set (C : Msc.Cfg) (ops : List Msc.Op) (h : Hdr) (st' : St)
     (hok : Msc.syncHeader C (Msc.run C St.empty ops) h = (st', .ok)) :
-    ∃ g p l signer snap ls, (Msc.run C St.empty ops).genesis = some g ∧
+    ∃ g p l signer snap, (Msc.run C St.empty ops).genesis = some g ∧
       (Msc.run C St.empty ops).hdrs h.parent = some p ∧ Chain (Msc.run C St.empty ops) g h.parent (p :: l) ∧
       p.hdr.number + 1 = h.number ∧ h.signer = some signer ∧
-      Msc.snapshot (Msc.run C St.empty ops) g (h.number - 1) h.parent signer = .ok snap ls ∧ signer ∈ snap.signers ∧
+      Msc.replay C (p :: l) = some snap ∧ signer ∈ snap.signers ∧
       (∀ a ∈ (p :: l).take (snap.signers.length / 2), a.hdr.signer = some signer → a.hdr.number = 0) ∧
       (h.number % snap.signers.length = Msc.indexOf signer snap.signers → h.difficulty = 2) ∧
       (h.number % snap.signers.length ≠ Msc.indexOf signer snap.signers → h.difficulty = 1) ∧
       (h.number % C.epoch = 0 → h.valBytes = snap.signers.flatten) := by
-  obtain ⟨g, p, l, signer, snap, ls, h1, h2, h3, h4, h5, h6, h7, h8, h9, h10, h11, _⟩ :=
+  obtain ⟨g, p, l, signer, snap, ls, h1, h2, h3, h4, h5, _, h7, h8, h9, h10, h11, _, h13⟩ :=
     MscP.accept_facts (MscP.run_inv ops (MscP.empty_inv C)) hok
-  exact ⟨g, p, l, signer, snap, ls, h1, h2, h3, h4, h5, h6, h7, h8, h9, h10, h11⟩
-
-/-- FULL statement for msc, NOT proved: the signer of an accepted header is authorized in the clique signer set obtained
-by replaying the votes over the header's plain parent chain (`Msc.replay`), i.e. the code's walk over
-`LastVoteParentOrEpoch` links computes the same set. What is proved is `msc_signer_in_effect_set_partial` (membership in
-the set the code's walk computes); the equivalence of the two is only exercised (the harness reference replays the
-plain chain). -/
-def msc_signer_in_effect_set : Prop :=
-  ∀ (C : Msc.Cfg) (ops : List Msc.Op) (h : Hdr) (st' : St),
-    Msc.syncHeader C (Msc.run C St.empty ops) h = (st', .ok) →
-    ∀ g p l, (Msc.run C St.empty ops).genesis = some g → Chain (Msc.run C St.empty ops) g h.parent (p :: l) →
-      ∃ snap signer, Msc.replay C (p :: l) = some snap ∧ h.signer = some signer ∧ signer ∈ snap.signers
+  exact ⟨g, p, l, signer, snap, h1, h2, h3, h4, h5, h13, h7, h8, h9, h10, h11⟩
 
 /-- msc fork choice: as `canonical_follows_td`. -/
 theorem msc_canonical_follows_td (C : Msc.Cfg) (ops : List Msc.Op) (g : Genesis)
